@@ -19,8 +19,9 @@ LOGICS = ["QF_UF", "QF_LRA", "QF_LIA", "QF_BOOL"]
 
 # value ranges read off /repo/src/options/SMTConfig.h:163-177 and the places that use them
 BOOL_ALGS = [0, 1, 2, 3, 4, 5]          # McMillan, Pudlak, McMillan', PS, PSw, PSs (InterpolationContext.cc:365)
-EUF_ALGS = [0, 2, 3]                    # strong, weak, random (UFInterpolator.h:156); 4,5 are read in UFInterpolator.cc:670-850
-EUF_ALGS_EXTRA = [4, 5]
+EUF_ALGS = [0, 2, 3]                    # strong, weak, random (SMTConfig.h:169-171, UFInterpolator.h:156)
+# values 4 and 5 are read by an experimental path (UFInterpolator.cc:670-850) but are no named algorithm: with them get-interpolants
+# dies with SIGSEGV on small QF_UF inputs (observed; C18's business) — they are outside C08's quantifier and not generated
 LRA_ALGS = [0, 2, 3, 4, 5]              # strong, weak, factor, decomposing strong, decomposing weak (LASolver.cc:719)
 LRA_FACTORS = ["0", "1/2", "1/3", "3/4", "9/10", "1/100"]
 REDUCE = [0, 1]
@@ -35,9 +36,9 @@ def option_vector(rng, logic, plain=False):
     if rng.random() < 0.85:
         o[":interpolation-bool-algorithm"] = str(rng.choice(BOOL_ALGS))
     if logic == "QF_UF" and rng.random() < 0.8:
-        o[":interpolation-euf-algorithm"] = str(rng.choice(EUF_ALGS + (EUF_ALGS_EXTRA if rng.random() < 0.3 else [])))
+        o[":interpolation-euf-algorithm"] = str(rng.choice(EUF_ALGS))
     if logic in ("QF_LRA", "QF_LIA") and rng.random() < 0.85:
-        algs = LRA_ALGS if logic == "QF_LRA" else [0, 2, 4, 5]     # factor: LASolver.cc:723 asserts "not hasIntegers"
+        algs = LRA_ALGS      # factor (3) under QF_LIA: LASolver.cc:723 only asserts "not hasIntegers" (no-op in release builds)
         a = rng.choice(algs)
         o[":interpolation-lra-algorithm"] = str(a)
         if a == 3 or rng.random() < 0.1:
@@ -342,7 +343,7 @@ def gen(rng, logic=None, kgroups=None, features=None, plain_options=False):
         out = []
         if len(current_names) < 2:
             return out
-        for _ in range(rng.randint(1, 3)):
+        for _ in range(rng.randint(1, 2)):
             if kgroups:
                 k = kgroups if isinstance(kgroups, int) else rng.choice(kgroups)
             else:
